@@ -20,11 +20,26 @@ def main():
     ap.add_argument("--tier", default=os.environ.get("VERIF_TIER", "quick"), choices=["quick", "thorough"])
     ap.add_argument("--replay", default=None)
     ap.add_argument("--seed", type=int, default=None)
+    ap.add_argument("--envsweep", default=None, help=argparse.SUPPRESS)  # internal: one shard under another interpreter configuration
     args = ap.parse_args()
 
-    if os.environ.get("PYTHONHASHSEED") != "0":
+    # interpreter configuration: normally PYTHONHASHSEED=0 and no -O; the engine's configuration sweep and replays of failures found
+    # there name their own (PYTHONOPTIMIZE / PYTHONHASHSEED), which must be in place before the interpreter starts
+    KEYS = ("PYTHONHASHSEED", "PYTHONOPTIMIZE", "PANDAS_COPY_ON_WRITE")
+    want = {"PYTHONHASHSEED": "0"}
+    if args.envsweep:
+        want = {k: os.environ[k] for k in KEYS if k in os.environ}
+    elif args.replay:
+        try:
+            import json
+
+            with open(args.replay) as f:
+                want.update({k: str(v) for k, v in (json.load(f).get("env") or {}).items() if k in KEYS})
+        except (OSError, ValueError):
+            pass
+    if any(os.environ.get(k) != v for k, v in want.items()):
         env = dict(os.environ)
-        env["PYTHONHASHSEED"] = "0"
+        env.update(want)
         os.execve(sys.executable, [sys.executable] + sys.argv, env)
 
     sys.path.insert(0, HERE)
@@ -45,7 +60,12 @@ def main():
             raise HarnessError("no unique check module for %s" % args.prop)
         modname = "checks." + os.path.basename(matches[0])[:-3]
         mod = importlib.import_module(modname)
-        rc = main_run(mod, args.tier, seed, replay=args.replay)
+        if args.envsweep:
+            from vf.engine import envsweep_child
+
+            rc = envsweep_child(mod, args.tier, seed, args.envsweep)
+        else:
+            rc = main_run(mod, args.tier, seed, replay=args.replay)
     except HarnessError as e:
         print("HARNESS-ERROR property=%s %s" % (args.prop, e), file=sys.stderr)
         sys.exit(2)
